@@ -10,6 +10,7 @@ from paramiko.server import InteractiveQuery
 
 from vf.authkit import (AUTH_FAILED, AUTH_PARTIALLY_SUCCESSFUL, AUTH_SUCCESSFUL, MSG_USERAUTH_INFO_RESPONSE,
                         MSG_USERAUTH_REQUEST, MSG_USERAUTH_SUCCESS, FenceTimeout, Sess, episodes, sstr, started, u32)
+from vf.g2kit import RekeySess, RekeyTrouble, wait_until
 from vf.props.c14 import KRB5_OID, install_gss_stub
 
 META = dict(
@@ -254,7 +255,7 @@ def reach_point(ctx, sess, point, rng):
     raise ValueError(point)
 
 
-def judge(ctx, sess, desc, pmark, since_n, control=False):
+def judge(ctx, sess, desc, pmark, since_n, control=False, prefix=None):
     """Evaluate everything the monitors saw since the first probe of this session."""
     v = sess.victim
     vmap = id(v._channels)
@@ -262,7 +263,8 @@ def judge(ctx, sess, desc, pmark, since_n, control=False):
     mine = [e for e in pe if e[1] in (None, vmap)]
     cbs = [c for c in sess.callbacks(since_n) if is_service_cb(c["name"])]
     eps = [ep for ep in episodes(sess.rec, since_n)]
-    prefix = "control_" if control else ""
+    if prefix is None:
+        prefix = "control_" if control else ""
     ctx.count(prefix + "service_callbacks_seen", len(cbs))
     ctx.count(prefix + "channel_inits_seen", len([e for e in mine if e[0] == "Channel.__init__"]))
     ctx.count(prefix + "channelmap_puts_seen", len([e for e in mine if e[0] == "ChannelMap.put"]))
@@ -373,6 +375,315 @@ def run_control(ctx, rng):
         sess.close()
 
 
+# ---------------------------------------------------------------------------
+# round 3 (a): connection-layer messages INSIDE a key re-exchange, before authentication
+#
+# Positions are those of the client's (attacker's) own messages in the exchange; they are produced by one-shot
+# "before my message of type T goes out" hooks on the attacker tool's packetizer (g2kit), so the probe is on the
+# wire exactly there, and they are *confirmed* from the victim's tap before a probe counts for its cell:
+#   before_own_kexinit  victim's KEXINIT out, client's not yet read     (server-initiated exchanges only)
+#   after_own_kexinit   client's KEXINIT read, its KEX*_INIT (30..41) not yet
+#   before_own_newkeys  client's KEX*_INIT read, its NEWKEYS not yet
+#   after_own_newkeys   client's NEWKEYS read
+
+REKEY_INITIATORS = ("server_api", "server_threshold", "peer")
+REKEY_POSITIONS = ("before_own_kexinit", "after_own_kexinit", "before_own_newkeys", "after_own_newkeys")
+REKEY_HOOK = {"before_own_kexinit": 20, "after_own_kexinit": "kex", "before_own_newkeys": 21}
+REKEY_POINTS = ["after_service_accept", "after_failed_auth", "after_newkeys", "after_partial_auth",
+                "mid_keyboard_interactive", "after_pk_query"]
+
+
+def rekey_cells():
+    return [(i, p) for i in REKEY_INITIATORS for p in REKEY_POSITIONS if not (i == "peer" and p == "before_own_kexinit")]
+
+
+def window_probes(rng):
+    """Every global-request kind and every channel-open kind (the victim survives those), then one message of
+    another connection-layer type (which may end the transport: unknown channel)."""
+    probes = [(80, "wellformed", wellformed(rng, 80, vi)) for vi in range(len(GLOBAL_KINDS))]
+    probes += [(90, "wellformed", wellformed(rng, 90, vi)) for vi in range(len(OPEN_KINDS))]
+    rng.shuffle(probes)
+    t = rng.choice([98, 98, 94, 93, 95, 96, 97, 99, 100, 91, 92, 81, 82])
+    probes.append((t, "wellformed", wellformed(rng, t, rng.randrange(len(REQUEST_KEYS)) if t == 98 else None)))
+    return probes
+
+
+def classify_position(sess, mark, n):
+    """Where, in the exchange started after `mark`, did the victim read the message with event number n?"""
+    def first(direction, types):
+        ev = sess.att.victim_msgs(direction, types, mark)
+        return ev[0]["n"] if ev else None
+
+    out20, in20 = first("out", (20,)), first("in", (20,))
+    in30, in21 = first("in", tuple(range(30, 42))), first("in", (21,))
+    if in21 is not None and n > in21:
+        return "after_own_newkeys"
+    if in30 is not None and n > in30:
+        return "before_own_newkeys"
+    if in20 is not None and n > in20:
+        return "after_own_kexinit"
+    if out20 is not None and n > out20:
+        return "before_own_kexinit"
+    return "outside the exchange"
+
+
+def run_rekey_window(ctx, rng, desc, control=False):
+    point, initiator, position = desc["point"], desc["initiator"], desc["position"]
+    pol = dict(check_port_forward_request=4022) if control else policy_for(point)
+    sess = started(lambda: RekeySess(rng, policy=pol), lambda s: s.start(auth=control))
+    if sess is None:
+        ctx.inconclusive("re-key window: handshake failed three times")
+        return
+    prefix = "rekey_control_" if control else ""
+    try:
+        if not control and not reach_point(ctx, sess, point, rng):
+            ctx.inconclusive("re-key window: could not reach auth point %s" % point)
+            return
+        v, a = sess.victim, sess.att.att
+        pmark = Probe.mark()
+        since_n = sess.att.mark()
+        sent = []
+
+        def fire():
+            for (t, pk, body) in desc["probes"]:
+                seq, st = sess.step(t, body)
+                sent.append((t, seq))
+                if st == "dead":
+                    break
+
+        sess.ctl.swallow = True
+        hook = REKEY_HOOK.get(position)
+        if hook is not None:
+            sess.ctl.arm(hook, fire)
+        try:
+            mark = sess.start_rekey(initiator)
+        except RekeyTrouble as e:
+            ctx.inconclusive("re-key window: %s" % e)
+            return
+        if hook is None:
+            wait_until(lambda: sess.a_keys_out(mark) or not v.is_active() or not a.is_active(), 90)
+            if not sess.a_keys_out(mark):
+                ctx.inconclusive("re-key window: the attacker tool never sent NEWKEYS (victim active=%s exc=%r)"
+                                 % (v.is_active(), v.saved_exception))
+                return
+            fire()
+        elif not sess.ctl.fired.wait(150):
+            ctx.inconclusive("re-key window: position %s/%s never reached (victim active=%s exc=%r)"
+                             % (initiator, position, v.is_active(), v.saved_exception))
+            return
+        if sess.ctl.errors:
+            ctx.inconclusive("re-key window: harness trouble inside the hook: %r" % (sess.ctl.errors[0],))
+            return
+        state = sess.wait_rekey(mark)
+        read_any = False
+        for (t, seq) in sent:
+            e = sess.victim_read_seq(seq, since_n) if seq is not None else None
+            if e is None:
+                ctx.count(prefix + "rekey_probe_not_read_by_victim")
+                continue
+            pos = classify_position(sess, mark, e["n"])
+            if pos != position:
+                ctx.inconclusive("re-key window: probe type %d was read %s, not %s (%s)" % (t, pos, position, initiator))
+                continue
+            read_any = True
+            ctx.count("%srekey_cell_%s_%s_probes_read" % (prefix, initiator, position))
+            ctx.count(prefix + "rekey_window_probes_read")
+        ctx.count(prefix + "rekey_exchange_" + state.replace("-", "_"))
+        if not control:
+            ctx.count("rekey_point_" + point)
+        judge(ctx, sess, desc, pmark, since_n, control, prefix=prefix if control else None)
+        if control:
+            ctx.count("rekey_control_sessions")
+        else:
+            ctx.case(("c15-rekey", repr(desc)), sample=desc if desc.get("sample") else None, nontrivial=read_any)
+    except FenceTimeout as e:
+        ctx.inconclusive("re-key window: fence timeout: %s" % e)
+    finally:
+        sess.ctl.swallow = False
+        sess.close()
+
+
+def run_rekey_stratum(ctx, rng, deadline):
+    cells = rekey_cells()
+    # control: the same probes at the key position in an AUTHENTICATED session must make the monitors fire
+    run_rekey_window(ctx, rng, dict(point="authenticated", initiator="server_api", position="before_own_kexinit",
+                                    probes=[(80, "wellformed", sstr("tcpip-forward") + b"\x01" + sstr("127.0.0.1") + u32(0)),
+                                            (80, "wellformed", sstr("x") + b"\x01"),
+                                            (90, "wellformed", sstr("session") + u32(3) + u32(1 << 21) + u32(32768))]),
+                     control=True)
+    plan = []
+    reps = ctx.pick(1, 3)
+    for rep in range(reps):
+        for pi, point in enumerate(REKEY_POINTS):
+            for (initiator, position) in cells:
+                # quick: every cell at two auth points; the position that reaches the normal dispatch
+                # (before_own_kexinit) at two more
+                if ctx.quick and pi >= 2 and not (position == "before_own_kexinit" and pi < 4):
+                    continue
+                plan.append((point, initiator, position))
+    shown = 0
+    for i, (point, initiator, position) in enumerate(plan):
+        if not ctx.mine(i):
+            continue
+        if time.time() > deadline:
+            ctx.count("sessions_not_run_time_cap")
+            continue
+        desc = dict(stratum="inside re-key", point=point, initiator=initiator, position=position,
+                    probes=window_probes(rng))
+        if shown < 1 and position == "before_own_kexinit":
+            desc["sample"] = True
+            shown += 1
+        ctx.count("sessions")
+        try:
+            run_rekey_window(ctx, rng, desc)
+        except Exception:
+            ctx.inconclusive("harness error: " + traceback.format_exc()[-900:])
+    # floors: probes confirmed inside every cell; survivable positions see the whole probe list
+    for (initiator, position) in cells:
+        survivable = position in ("before_own_kexinit", "after_own_newkeys")
+        ctx.require("rekey_cell_%s_%s_probes_read" % (initiator, position), (16 if survivable else 2) * reps)
+    ctx.require("rekey_exchange_done", 8 * reps)
+    ctx.require("rekey_control_sessions", 2)
+    ctx.require("rekey_control_rekey_cell_server_api_before_own_kexinit_probes_read", 6)
+    ctx.require("rekey_control_service_callbacks_seen", 4)
+    ctx.require("rekey_control_channel_inits_seen", 2)
+
+
+# ---------------------------------------------------------------------------
+# round 3 (b): failed logins and refused connection-layer requests counted on one connection
+
+def counting_plan(ctx, rng):
+    plan = []
+    for total in range(8, 13):
+        for k in range(1, total + 1):
+            ev = ["F"] * total
+            ev[k - 1] = "C"
+            # a request behind the ninth/tenth failed login is pipelined (it has to be on the wire before the server
+            # hangs up); otherwise the two modes alternate
+            plan.append(dict(events=ev, mode="burst" if (k >= 10 or (total + k) % 2) else "fenced", total=total, k=k))
+    mixes = [["F", "C"] * 10 + ["C"], ["C"] * 9 + ["F"] * 10 + ["C"], ["F"] * 9 + ["C", "F", "C"],
+             ["C", "C"] + ["F"] * 10 + ["C", "C"], ["F"] * 5 + ["C"] * 5 + ["F"] * 5 + ["C"]]
+    for j in range(ctx.pick(6, 60)):
+        n_f, n_c = rng.randint(8, 12), rng.randint(2, 7)
+        ev = ["F"] * n_f + ["C"] * n_c
+        rng.shuffle(ev)
+        last_f = max(i for i, e in enumerate(ev) if e == "F")
+        ev.insert(last_f + 1, "C")  # one request directly behind the last failed login
+        mixes.append(ev)
+    for j, ev in enumerate(mixes):
+        for mode in (("burst", "fenced") if j < 5 else (("burst", "fenced")[j % 2],)):
+            plan.append(dict(events=list(ev), mode=mode, total=len(ev), k=0))
+    return plan
+
+
+COUNTING_KINDS = [(80, 0), (90, 0), (80, 5), (90, 1), (80, 1), (90, 3)]
+
+
+def run_counting(ctx, rng, desc):
+    sess = started(lambda: Sess(rng, policy=policy_for("after_failed_auth")), lambda s: s.start(auth=False))
+    if sess is None:
+        ctx.inconclusive("counting: handshake failed three times")
+        return
+    try:
+        _, st = sess.service_request()
+        if st != "ok":
+            ctx.inconclusive("counting: victim ended on SERVICE_REQUEST")
+            return
+        pmark = Probe.mark()
+        since_n = sess.att.mark()
+        n_f = 0
+        sent_c = []  # (seq, failed logins sent before it, directly behind a failed login)
+        prev = None
+        for i, ev in enumerate(desc["events"]):
+            if ev == "F":
+                ptype, body = MSG_USERAUTH_REQUEST, sstr("u") + sstr("ssh-connection") + sstr("password") + b"\x00" + sstr("nope")
+                n_f += 1
+            else:
+                ptype, _, body = desc["probes"][i]
+            if desc["mode"] == "fenced":
+                seq, st = sess.step(ptype, body)
+            else:
+                seq, st = sess.raw(ptype, body), "ok"
+            if ev == "C" and seq is not None:
+                sent_c.append((seq, n_f, prev == "F"))
+            prev = ev
+            if st == "dead":
+                break  # fenced mode: the victim is gone, nothing more can reach it
+        if desc["mode"] == "burst":
+            sess.fence()
+        eps = episodes(sess.rec, since_n)
+        fails = 0
+        read_any = False
+        for ep in eps:
+            t = ep["msg"]["type"]
+            if t is not None and 80 <= t <= 100:
+                read_any = True
+                ctx.count("conn_request_read_after_%d_failures" % fails)
+                ctx.count("counting_conn_requests_read")
+            fails += len([o for o in ep["out"] if o["type"] == 51 and o["payload"][-1:] == b"\x00"])
+        ctx.count("counting_failures_observed", fails)
+        if fails >= 10:
+            ctx.count("counting_sessions_reaching_tenth_failure")
+        ctx.count("counting_sessions_%s" % desc["mode"])
+        ctx.count("counting_total_%d" % desc["total"] if desc["k"] else "counting_mixed_sequences")
+        for (seq, before, behind_f) in sent_c:
+            if before >= 10:
+                ctx.count("conn_request_sent_behind_tenth_failure")
+                if behind_f and before == 10 and desc["mode"] == "burst":
+                    ctx.count("conn_request_pipelined_directly_behind_tenth_failure")
+                if seq is not None and sess.victim_read_seq(seq, since_n) is not None:
+                    ctx.count("conn_request_behind_tenth_failure_read_by_victim")
+        judge(ctx, sess, desc, pmark, since_n)
+        ctx.case(("c15-count", repr(desc)), sample=desc if desc.get("sample") else None, nontrivial=read_any)
+    except FenceTimeout as e:
+        ctx.inconclusive("counting: fence timeout: %s" % e)
+    finally:
+        sess.close()
+
+
+def run_counting_stratum(ctx, rng, deadline):
+    plan = counting_plan(ctx, rng)
+    shown = 0
+    for i, p in enumerate(plan):
+        if not ctx.mine(i):
+            continue
+        if time.time() > deadline:
+            ctx.count("sessions_not_run_time_cap")
+            continue
+        probes = {}
+        n_c = len([e for e in p["events"] if e == "C"])
+        ci = 0
+        for j, ev in enumerate(p["events"]):
+            if ev != "C":
+                continue
+            ci += 1
+            if ci == n_c and j == len(p["events"]) - 1 and rng.random() < 0.4:
+                t = rng.choice([98, 94, 97])  # a channel message (ends the transport: unknown channel) only as the last event
+                probes[j] = (t, "wellformed", wellformed(rng, t, rng.randrange(len(REQUEST_KEYS)) if t == 98 else None))
+            else:
+                t, variant = COUNTING_KINDS[(i + ci) % len(COUNTING_KINDS)]
+                probes[j] = (t, "wellformed", wellformed(rng, t, variant))
+        desc = dict(stratum="counting", events="".join(p["events"]), mode=p["mode"], total=p["total"], k=p["k"], probes=probes)
+        if shown < 1 and p["k"] == 11:
+            desc["sample"] = True
+            shown += 1
+        ctx.count("sessions")
+        try:
+            run_counting(ctx, rng, desc)
+        except Exception:
+            ctx.inconclusive("harness error: " + traceback.format_exc()[-900:])
+    for n in range(10):
+        ctx.require("conn_request_read_after_%d_failures" % n, 3)
+    for total in range(8, 13):
+        ctx.require("counting_total_%d" % total, total)
+    ctx.require("counting_mixed_sequences", 10)
+    ctx.require("counting_sessions_reaching_tenth_failure", 15)
+    ctx.require("counting_sessions_burst", 20)
+    ctx.require("counting_sessions_fenced", 20)
+    ctx.require("conn_request_sent_behind_tenth_failure", 5)
+    ctx.require("conn_request_pipelined_directly_behind_tenth_failure", 3)
+
+
 def run(ctx):
     rng = ctx.rng
     install_gss_stub()
@@ -411,6 +722,8 @@ def run(ctx):
             except Exception:
                 ctx.inconclusive("harness error: " + traceback.format_exc()[-900:])
     run_control(ctx, rng)
+    run_rekey_stratum(ctx, rng, ctx.deadline(190, 1350))
+    run_counting_stratum(ctx, rng, ctx.deadline(200, 1400))
     ctx.require("probes_read_by_victim", 450 if ctx.quick else 2500)
     ctx.require("probe_episodes", 450 if ctx.quick else 2500)
     for p in POINTS:
